@@ -8,10 +8,10 @@ import (
 
 	"github.com/golang/protobuf/proto"
 	"github.com/itchio/savior/seeksource"
-	pkgerrors "github.com/pkg/errors"
 	"github.com/itchio/wharf/bsdiff"
 	"github.com/itchio/wharf/pwr"
 	"github.com/itchio/wharf/wire"
+	pkgerrors "github.com/pkg/errors"
 	"verif/lib"
 )
 
@@ -352,15 +352,15 @@ func srcOff(mc *wire.MessageReaderCheckpoint) int64 {
 
 func init() {
 	lib.Register(&lib.Property{
-		ID:    "C13",
-		Level: "exploration",
-		Rule: "message sequences (SyncOp/SyncHeader/Control/BlockHash; payload sizes from {0,1,127,128,16383,16384,32764..32771,65535..65537,1M-1,1M,1M+1,4M,4M+1}; patterns boundary-mix, large-then-small, growing across every power of two, all-empty, many-small, huge, types) written through wire.WriteContext + pwr.CompressWire under every registered setting (NONE; GZIP -2..9; BROTLI 0..11) and read back through DecompressWire + ReadContext; save schedules every / every 2nd / every 7th message and, for sequences <= 64 messages, one pass per message boundary with a single save request there; every popped checkpoint is gob round-tripped and resumed in a brand-new reader over the same bytes and must deliver exactly the remaining messages then EOF; one >= 44 MiB sequence per slow-checkpointing class. ASan pass over the brotli settings (C encoder). distinct = distinct (pattern, setting, save schedule)",
+		ID:          "C13",
+		Level:       "exploration",
+		Rule:        "message sequences (SyncOp/SyncHeader/Control/BlockHash; payload sizes from {0,1,127,128,16383,16384,32764..32771,65535..65537,1M-1,1M,1M+1,4M,4M+1}; patterns boundary-mix, large-then-small, growing across every power of two, all-empty, many-small, huge, types) written through wire.WriteContext + pwr.CompressWire under every registered setting (NONE; GZIP -2..9; BROTLI 0..11) and read back through DecompressWire + ReadContext; save schedules every / every 2nd / every 7th message and, for sequences <= 64 messages, one pass per message boundary with a single save request there; every popped checkpoint is gob round-tripped and resumed in a brand-new reader over the same bytes and must deliver exactly the remaining messages then EOF; one >= 44 MiB sequence per slow-checkpointing class. ASan pass over the brotli settings (C encoder). distinct = distinct (pattern, setting, save schedule)",
 		Assumptions: []string{"WantSave/PopCheckpoint are driven in the patcher's pattern (request, pop, read)", "compressed sources only checkpoint at block boundaries: a sequence that pops no checkpoint is counted, not failed, except on the purpose-sized sequences"},
-		Flavors: func(tier string) []string { return []string{"plain", "asan"} },
-		Cases:   c13Cases,
-		Run:     c13Run,
-		Batch:   6,
-		CaseBudget: 600 * 1e9,
+		Flavors:     func(tier string) []string { return []string{"plain", "asan"} },
+		Cases:       c13Cases,
+		Run:         c13Run,
+		Batch:       6,
+		CaseBudget:  600 * 1e9,
 		Post: func(rs []lib.Result, ev *lib.Evidence) []string {
 			var out []string
 			sets, _ := ev.Coverage["observed_sets"].(map[string]int)
